@@ -33,7 +33,13 @@ RULE = ("deterministic lifecycle corpus (every single-field and all-field update
         "then seeded random histories of 1-45 calls over 1-3 buckets (unicode ids) mixing lifecycle calls with "
         "event writes; every history runs on memory, sqlite (temp file) and peewee (temp file) through "
         "Datastore/Bucket; non-trivial = a run in which a bucket holding events was deleted and the same id "
-        "created again")
+        "created again; (b) histories whose TAIL of 2-14 calls is not read back call by call (a dump reads through "
+        "get_events, which commits on sqlite, so in (a) no event write is ever pending when a bucket-level call "
+        "arrives): event writes through handles interleaved with failing (lookup / describe / update / delete of an "
+        "id never created or merely absent) and succeeding (create, update, delete, lookup, describe, list) "
+        "bucket-level calls, only the call's result and bucket_instances observed, one dump at the end, SqliteStorage "
+        "in its default lazy-commit mode; deterministic (every bucket-level call x four patterns of pending writes) "
+        "then seeded random; non-trivial there = a bucket-level call arrives after an unread event write")
 
 SEC = 1_000_000
 MISSING = 7
@@ -1031,6 +1037,9 @@ def main(argv=None):
         "ds.buckets() is compared in dict order",
         "event reads/writes through handles are compared with the models exactly, but their meaning is C02/C03/C04's; "
         "here they only must not move the keyed map",
+        "unread tails: the reference of harness/c05_quiet.py is advanced from the calls alone (events by the id the "
+        "insert returned / id-less multiset for bulk inserts); the models carry no transaction state (the code has no "
+        "rollback), so a discarded pending write shows as a difference of the final dump",
     ]
     return ck.finish(RULE)
 
